@@ -256,6 +256,7 @@ class C15(PropertyCheck):
         "QipVerif.C15.prefactor_squared",
         "QipVerif.C15.trace_preserved",
         "QipVerif.C15.hermiticity_preserved",
+        "QipVerif.C15.subsystems_independent",
         "QipVerif.C15.validation_T",
         "QipVerif.C15.validation_setup",
         "QipVerif.C15.validation_t2_gt_2t1",
@@ -276,8 +277,8 @@ class C15(PropertyCheck):
     level_note = ("partial: proof for rates and validation; NOT proved: positivity of the evolved state (complete positivity of "
                   "Lindblad evolution, GKLS) and that qutip.mesolve solves the linear ODE (the laws exp(-t/t1), exp(-t/t2) follow "
                   "from the proved generator entries by the scalar linear ODE) - both only checked numerically by the oracle; "
-                  "independence of subsystems is proved at the level of which operators are produced, the reduced dynamics is "
-                  "checked numerically. List entries are not validated for positivity by the code (modelled, nan/inf prefactors).")
+                  "independence of subsystems is proved for which operators are produced and, at generator level, for product "
+                  "states of two subsystems (subsystems_independent); the reduced dynamics of 3 subsystems is checked numerically. List entries are not validated for positivity by the code (modelled, nan/inf prefactors).")
     technique = "Lean 4 proof (exact rationals, Mathlib matrices over C, entrywise dissipator computation) + model/implementation correspondence"
     trusted_base = [
         "Lean 4.33 kernel; axioms propext, Classical.choice, Quot.sound",
@@ -450,7 +451,10 @@ class C15(PropertyCheck):
         with warnings.catch_warnings():
             warnings.simplefilter("ignore")
             if kind == "physical":
-                return self._physical(ctx, w)
+                try:
+                    return self._physical(ctx, w)
+                except Exception as e:
+                    return True, f"noisy simulation crashed: {type(e).__name__}: {str(e)[:120]}"
             dims = w["dims"]
             N = len(dims)
             t1, t2 = unjson_T(w["t1"]), unjson_T(w["t2"])
@@ -475,7 +479,10 @@ class C15(PropertyCheck):
             times = [0.0] + [scale * f for f in (0.25, 1.0, 2.5)]
             plus = [(qutip.basis(d, 0) + qutip.basis(d, 1)).unit() for d in dims]
             rho0 = qutip.ket2dm(qutip.tensor(plus))
-            r = qutip.mesolve(H, rho0, times, c_ops=c_ops, options={"atol": 1e-11, "rtol": 1e-9, "nsteps": 100000})
+            try:
+                r = qutip.mesolve(H, rho0, times, c_ops=c_ops, options={"atol": 1e-11, "rtol": 1e-9, "nsteps": 100000})
+            except Exception as e:
+                return True, f"the master equation of the returned (H, c_ops) cannot be integrated: {type(e).__name__}: {str(e)[:80]}"
             for t, st in zip(times, r.states):
                 bad = self._physical_state(st)
                 if bad:
